@@ -56,6 +56,9 @@ def plan(tier, seed):
                                          N=n, gaps=["S", 1, 2], sizes=[1, 2], order=0))
     for wf in (0.5, 1.5):
         cfgs.append(dict(kind="red", rate=8, mode="pkts", qlimit=4, minth=1, maxth=3, wf=wf, maxp=0.5, N=n, gaps=["S", 1, 2], sizes=[1, 2], order=0))
+    # Gbit/s rates on a nanosecond time axis (transmissions far below a microsecond)
+    cfgs.append(dict(kind="port", rate=8 * 2 ** 30, mode="bytes", qlimit=4, N=n - 1, gaps=["S", 1, 2], sizes=[1, 2, 3], order=0, scale=2.0 ** -30))
+    cfgs.append(dict(kind="port", rate=8 * 2 ** 30, mode="none", qlimit=None, N=n - 1, gaps=["S", 1, 2], sizes=[1, 2, 3], order=0, scale=2.0 ** -30, mon=True))
     cfgs.append(dict(kind="port", rate=8, mode="bytes", qlimit=4, N=n - 1, gaps=["S", 1, 2], sizes=[1, 2, 3], order=0, mailbox=1))
     cfgs.append(dict(kind="port", rate=0, mode="pkts", qlimit=2, N=n - 1, gaps=["S", 1, 2], sizes=[1, 2], order=0, mailbox=1))
     # every configuration once more with long fixed workloads (state that only breaks after hundreds of packets)
@@ -96,11 +99,11 @@ def execute(ch, cfg):
                            limit_bytes=(mode == "bytes"))
         return Port(env, cfg["rate"], q, mode == "bytes", EID)
     if cfg.get("order", 0) == 0:
-        env.process(net.driver(ch, nmax, items, Front(), long_gap=40))
+        env.process(net.driver(ch, nmax, items, Front(), long_gap=40, scale=cfg.get("scale", 1)))
         port = mk()
     else:
         port = mk()
-        env.process(net.driver(ch, nmax, items, Front(), long_gap=40))
+        env.process(net.driver(ch, nmax, items, Front(), long_gap=40, scale=cfg.get("scale", 1)))
     if cfg.get("mailbox"):
         from onl.sim import Store
         box = Store(env)
